@@ -24,7 +24,7 @@ from . import alpha
 
 MODULE_BODY = "<module>"
 CURATED = {
-    "weights": { "load_weights": ("C02",), "Dispersion.get_pars": ("C02",),
+    "weights": { "load_weights": ("C02",), "Dispersion.get_pars": ("C02", "C10", "C11",),
         MODULE_BODY: ("C02",),
         "Dispersion.__init__": ("C02", "C10"), "Dispersion.set_weights": ("C02", "C10"),
         "Dispersion.get_weights": ("C01", "C02", "C05", "C06", "C07", "C10", "C14",), "Dispersion._linspace": ("C01", "C02"),
@@ -56,8 +56,8 @@ CURATED = {
     "mixture": { "_MixtureParts.__iter__": ("C08",), "MixtureKernel.release": ("C11",), "MixtureModel.release": ("C11",),
         MODULE_BODY: ("C08",),
         "make_mixture_info": ("C08",), "MixtureModel.__init__": ("C08",), "MixtureModel.make_kernel": ("C08",), "_intermediates": ("C08",),
-        "MixtureKernel.__init__": ("C08",), "MixtureKernel.Iq": ("C08", "C11",), "_MixtureParts.__init__": ("C08",), "_MixtureParts.__next__": ("C08",),
-        "_MixtureParts._part_details": ("C08",), "_MixtureParts._part_values": ("C08",),
+        "MixtureKernel.__init__": ("C08",), "MixtureKernel.Iq": ("C08", "C11", "C19",), "_MixtureParts.__init__": ("C08",), "_MixtureParts.__next__": ("C08",),
+        "_MixtureParts._part_details": ("C08",), "_MixtureParts._part_values": ("C08", "C19",),
     },
     "direct_model": { "DataMixin._set_data": ("C10",), "DirectModel.simulate_data": ("C10",),
         MODULE_BODY: ("C10",),
@@ -81,8 +81,8 @@ CURATED = {
     },
     "kernelpy": { "PyModel.__init__": ("C09",), "PyKernel.release": ("C11",), "PyInput.release": ("C11",), "PyModel.release": ("C11",),
         MODULE_BODY: ("C09",),
-        "PyModel.make_kernel": ("C09",), "PyInput.__init__": ("C01", "C03", "C04", "C09", "C10", "C11", "C15", "C19"), "PyKernel.__init__": ("C01", "C09", "C11",), "PyKernel._call_kernel": ("C01", "C06", "C09", "C11", "C14",),
-        "_loops": ("C01", "C09", "C11", "C14",), "_create_default_functions": ("C09", "C11",), "_create_vector_Iq": ("C09", "C11",), "_create_vector_Iqxy": ("C09", "C11",),
+        "PyModel.make_kernel": ("C09",), "PyInput.__init__": ("C01", "C03", "C04", "C09", "C10", "C11", "C15", "C19"), "PyKernel.__init__": ("C01", "C07", "C09", "C11",), "PyKernel._call_kernel": ("C01", "C06", "C07", "C09", "C11", "C14",),
+        "_loops": ("C01", "C07", "C09", "C11", "C14",), "_create_default_functions": ("C09", "C11",), "_create_vector_Iq": ("C09", "C11",), "_create_vector_Iqxy": ("C09", "C11",),
     },
     "sasview_model": { "SasviewModel.getParamList": ("C10",), "SasviewModel.getDispParamList": ("C10",), "SasviewModel.is_fittable": ("C10",), "SasviewModel.calculate_ER": ("C10", "C14",), "SasviewModel.calculate_VR": ("C10", "C14",), "SasviewModel._dispersion_mesh": ("C10",), "SasviewModel.calc_composition_models": ("C10",), "MultiplicationModel": ("C07", "C10",), "SasviewModel.__get_state__": ("C11",), "SasviewModel.__set_state__": ("C11",), "find_model": ("C10",), "load_standard_models": ("C10",), "reset_environment": ("C11", "C17",),
         MODULE_BODY: ("C10", "C11"),
@@ -105,7 +105,7 @@ CURATED = {
         "make_source": ("C09", "C16", "C17"), "load_template": ("C17",), "model_sources": ("C17",), "_add_source": ("C17",), "kernel_name": ("C17",),
     },
     "modelinfo": { "Parameter.__init__": ("C09", "C20",), "Parameter.as_definition": ("C09", "C16",), "Parameter.as_function_argument": ("C09", "C16",), "ParameterTable._get_ref": ("C01", "C09",), "ParameterTable.user_parameters": ("C10",), "ParameterTable.set_zero_background": ("C07", "C08",), "expand_pars": ("C09", "C10",), "prefix_parameter": ("C08",), "suffix_parameter": ("C07", "C08",), "ModelInfo.get_hidden_parameters": ("C10",), "ParameterTable.__getitem__": ("C09",), "ParameterTable.__contains__": ("C09",),
-        "make_parameter_table": ("C09", "C16", "C20",), "parse_parameter": ("C09", "C16", "C20",), "ParameterTable.__init__": ("C01", "C05", "C06", "C07", "C08", "C09", "C10", "C16", "C20",), "ParameterTable.check_angles": ("C05", "C09",),
+        "make_parameter_table": ("C09", "C16", "C20",), "parse_parameter": ("C09", "C16", "C20",), "ParameterTable.__init__": ("C01", "C02", "C05", "C06", "C07", "C08", "C09", "C10", "C16", "C20",), "ParameterTable.check_angles": ("C05", "C09",),
         "ParameterTable.check_duplicates": ("C09",), "ParameterTable._set_vector_lengths": ("C01", "C07", "C08", "C09", "C20",), "ParameterTable._get_call_parameters": ("C01", "C06", "C07", "C08", "C09", "C16", "C20",),
         "ParameterTable._get_defaults": ("C07", "C08", "C09", "C10",), "make_model_info": ("C09", "C16", "C20",), "derive_table": ("C16",), "_insert_after": ("C16",), "_simple_insert": ("C16",),
     },
